@@ -42,6 +42,10 @@ var c01Lines = []string{
 	`x=010 y=a`, `x=0x10 y=b`,
 	// labels whose JSON value is an array (with elements that are needles of the alphabet) or an empty array
 	`{"tags":["a","b"],"y":"a"}`, `{"tags":[],"y":"b"}`, `{"tags":["a"]}`,
+	// values with a line break in them (the dot of a label expression does not match it), and fields that are present but empty
+	"a\nb", `{"y":"a\nb","x":1}`, `y= x=1`, `{"y":"","x":"","d":"","sz":""}`,
+	// integers where a size or a duration is expected
+	`{"sz":-5,"d":-5,"y":"a"}`, `{"sz":2048,"d":90,"y":"b"}`,
 }
 
 // c01Records: every line once, unique timestamps, stream labels cycling through app in {x,y} x env in {p,absent}.
